@@ -100,6 +100,9 @@ func (s *Sim) StartBackend(cfg *EndpointCfg) *Backend {
 }
 
 func (b *Backend) listen() {
+	if b.ln != nil {
+		b.ln.Close()
+	}
 	b.ln = b.sim.Listen(b.cfg.Host)
 	ln := b.ln
 	go func() {
